@@ -217,6 +217,18 @@ func (t *Tokenizer) tokenizeBuffer(buf []byte, last bool) {
 			depth++
 			continue
 		case closeObject:
+			if depth == 0 && !t.OnlyOne && 256 < len(t.mode) && (t.mode[256] == 'n' || t.mode[256] == 't') {
+				// A top level number or token is complete, report it before the
+				// brace is.
+				if t.mode[256] == 'n' {
+					t.handleNum(off)
+				} else {
+					t.addToken(string(t.tmp))
+				}
+				t.mode = valueMap
+				off--
+				break
+			}
 			depth--
 			if depth < 0 || t.starts[depth] != objectStart {
 				t.newError(off, "unexpected object close")
@@ -314,6 +326,18 @@ func (t *Tokenizer) tokenizeBuffer(buf []byte, last bool) {
 			depth++
 			continue
 		case closeArray:
+			if depth == 0 && !t.OnlyOne && 256 < len(t.mode) && (t.mode[256] == 'n' || t.mode[256] == 't') {
+				// A top level number or token is complete, report it before the
+				// bracket is.
+				if t.mode[256] == 'n' {
+					t.handleNum(off)
+				} else {
+					t.addToken(string(t.tmp))
+				}
+				t.mode = valueMap
+				off--
+				break
+			}
 			depth--
 			if depth < 0 || t.starts[depth] != arrayStart {
 				t.newError(off, "unexpected array close")
